@@ -329,6 +329,80 @@ def check_C14(ctx):
     engine_check(ctx, "C14", lambda r: r["sn"]["set"][4] == "Parallel" and len(r["calls"]) > 2, 14)
 
 
+def own_cfg(mode, npods, invs):
+    return ("CONSTANTS Mode = \"%s\"\n NPods = %d\nINIT Init\nNEXT Next\nCHECK_DEADLOCK FALSE\n" % (mode, npods)) + \
+        "".join("INVARIANT %s\n" % i for i in invs)
+
+
+def hist_cfg(nrevs, numberings, podvals, colls, invs):
+    return ("CONSTANTS NRevs = %d\n Numberings = {%s}\n PodVals = {%s}\n Colls = {%s}\nINIT Init\nNEXT Next\nCHECK_DEADLOCK FALSE\n" %
+            (nrevs, ", ".join('"%s"' % n for n in numberings), ", ".join(str(v) for v in podvals), ", ".join(str(c) for c in colls))) + \
+        "".join("INVARIANT %s\n" % i for i in invs)
+
+
+def check_C10(ctx):
+    q = ctx.quick
+    ctx.design("MCOwnership", own_cfg("pods", 2, ["I_C10"]), "own-pods")
+    ctx.design("MCOwnership", own_cfg("revs", 2, ["I_C10"]), "own-revs")
+    if not q:
+        ctx.design("MCHistory", hist_cfg(3, ["asc", "ties"], [0, 3], [0], ["I_C10"]), "history")
+    sh1, _ = snap_trace(ctx, "own-pods", "own-pods", 2, 2, 5, 40000 if q else 0, ["P_C10"], 10)
+    sh2, _ = snap_trace(ctx, "own-revs", "own-revs", 2, 2, 5, 30000 if q else 0, ["P_C10"], 11)
+    sh3, _ = snap_trace(ctx, "history", "history", 2, 2, 5, 20000 if q else 400000, ["P_C10"], 12)
+    if not q:
+        snap_trace(ctx, "own-pods3", "own-pods3", 2, 2, 5, 300000, ["P_C10"], 13)
+        ctx.exhaustive = True
+        ctx.extra["exhaustive_note"] = "own-pods(2 pods) and own-revs(3 revisions) enumerated completely through the real controller"
+    ctx.add_samples(sh1, 2, lambda r: any(c[0] == "patch" for c in r["calls"]))
+    ctx.add_samples(sh2, 1, lambda r: any(c[0] == "patch" for c in r["calls"]))
+    ctx.assumptions.append("overlapping selectors between two sets are covered by the cluster-level check of C16/C02, not here")
+
+
+def check_C11(ctx):
+    q = ctx.quick
+    ctx.design("MCOwnership", own_cfg("pods", 2, ["I_C11"]), "own-pods")
+    ctx.design("MCOwnership", own_cfg("revs", 2, ["I_C11"]), "own-revs")
+    ctx.design("MCSnapshot", mc_snapshot_cfg(1, 2, 5, True, ["I_C11"]), "pods-1ord-del")
+    sh1, _ = snap_trace(ctx, "own-pods", "own-pods", 2, 2, 5, 30000 if q else 0, ["P_C11"], 20)
+    sh2, _ = snap_trace(ctx, "own-revs", "own-revs", 2, 2, 5, 30000 if q else 0, ["P_C11"], 21)
+    sh3, _ = snap_trace(ctx, "pods-del", "pods-del", 2, 3, 5, 40000 if q else 600000, ["P_C11"], 22)
+    if not q:
+        ctx.exhaustive = True
+    ctx.add_samples(sh1, 1, lambda r: r["sn"]["set"][11])
+    ctx.add_samples(sh2, 1, lambda r: r["sn"]["set"][11] and len(r["calls"]) > 0)
+    ctx.add_samples(sh3, 1, lambda r: r["sn"]["set"][11] and len(r["calls"]) > 0)
+
+
+def check_C13(ctx):
+    q = ctx.quick
+    ctx.design("MCHistory", hist_cfg(3, ["asc", "ties"] if q else ["asc", "desc", "ties"], [0, 3], [0], ["I_C13"]), "history-3revs")
+    ctx.design("MCOwnership", own_cfg("revs", 2, ["I_C13"]), "own-revs")
+    sh1, _ = snap_trace(ctx, "history", "history", 2, 2, 5, 60000 if q else 1200000, ["P_C13"], 30)
+    sh2, _ = snap_trace(ctx, "own-revs", "own-revs", 2, 2, 5, 20000 if q else 0, ["P_C13"], 31)
+    ctx.add_samples(sh1, 2, has_call("delete", "controllerrevisions"))
+    ctx.add_samples(sh2, 1, has_call("delete", "controllerrevisions"))
+
+
+def check_C15(ctx):
+    q = ctx.quick
+    # the design statement: Sync is total (returns ok or err) on every snapshot of the modelled domains
+    ctx.design("MCSnapshot", mc_snapshot_cfg(1, 2, 5, True, ["I_C15"]), "pods-1ord")
+    sh1, _ = snap_trace(ctx, "admitted", "admitted", 2, 2, 5, 120000 if q else 2500000, ["P_C15"], 40)
+    ctx.add_samples(sh1, 2, lambda r: r["sn"]["set"][5] not in ("RollingUpdate", "OnDelete"))
+    ctx.add_samples(sh1, 1, lambda r: r["sn"]["set"][8] < 0)
+    ctx.assumptions.append("the lattice is built from the shapes manifests/crd.v1.yaml admits (replicas and revisionHistoryLimit always "
+                           "present because of schema defaults); pod templates are valid; pod populations over ordinals 0..2")
+
+
+def check_C06(ctx):
+    q = ctx.quick
+    ctx.design("MCSnapshot", mc_snapshot_cfg(1, 2, 5, False, ["I_C06"]), "pods-1ord")
+    sh1, _ = snap_trace(ctx, "claims", "claims", 2, 2, 5, 80000 if q else 0, ["P_C06"], 50)
+    if not q:
+        ctx.exhaustive = True
+    ctx.add_samples(sh1, 2, has_call("create", "persistentvolumeclaims"))
+
+
 # =================================================================================
 # C01 - ordinals
 # =================================================================================
@@ -367,6 +441,6 @@ def check_C01(ctx):
 
 
 CHECKS = {
-    "C01": check_C01,
+    "C01": check_C01, "C06": check_C06, "C10": check_C10, "C11": check_C11, "C13": check_C13, "C15": check_C15,
     "C03": check_C03, "C04": check_C04, "C05": check_C05, "C07": check_C07, "C12": check_C12, "C14": check_C14,
 }
